@@ -40,9 +40,12 @@ def water_viscosity(T=None, eta20=None, units=None, warn=True):
         warnings.warn("Temperature is outside range (0-100 degC)")
     # equation (5) in the paper says "log" but they seem to mean "log10"
     # when comparing with Table II.
-    return eta20 * 10 ** (
-        (A * (20 * K - t) - B / K * (t - 20 * K) ** 2) / (t + C * K)
-    )
+    exponent = (A * (20 * K - t) - B / K * (t - 20 * K) ** 2) / (t + C * K)
+    if units is not None:
+        from ..units import to_unitless
+
+        exponent = to_unitless(exponent)  # e.g. K/mK when T is given in mK
+    return eta20 * 10 ** exponent
 
 
 reference = dict(
